@@ -14,6 +14,10 @@ def main():
     ap.add_argument("--only", default=None, help="substring filter on unit names (debugging)")
     args = ap.parse_args()
     seed = int(os.environ.get("VERIF_SEED", "0") or 0)
+    if args.tier == "thorough":
+        # every solver-decided obligation goes to both back ends (a disagreement is a checker error); larger unit budget
+        os.environ.setdefault("PYVC_BOTH", "1")
+        os.environ.setdefault("PYVC_UNIT_BUDGET", "1200")
     pid = args.pid.upper()
     try:
         mod = importlib.import_module(f"checks.{pid.lower()}")
